@@ -9,6 +9,7 @@
 #include "garbage_collection.h"
 #include "interior_node.h"
 #include "thread_info_table.h"
+#include "verif_hooks.h"
 #include <atomic>
 #include <thread>
 
@@ -17,9 +18,11 @@ namespace yakushima {
 class epoch_manager {
 public:
     static void epoch_thread() {
+        YK_THREAD(YK_T_BEGIN, YK_R_EPOCH);
         for (;;) {
             sleepMs(YAKUSHIMA_EPOCH_TIME);
             for (;;) {
+                YK_VPA(YK_LOAD, YK_C_EPOCH, epoch_management::verif_epoch_addr(), 8);
                 Epoch cur_epoch = epoch_management::get_epoch();
                 bool verify{true};
                 for (auto&& elem : thread_info_table::get_thread_info_table()) {
@@ -36,8 +39,10 @@ public:
                  * When the calculation process in this loop is executed,
                  * there is no way to escape from the loop, so the following line is required.
                  */
+                YK_VP(YK_LOAD, YK_C_STOP, &kEpochThreadEnd);
                 if (kEpochThreadEnd.load(std::memory_order_acquire)) break;
             }
+            YK_VPA(YK_RMW, YK_C_EPOCH, epoch_management::verif_epoch_addr(), 8);
             epoch_management::epoch_inc();
 
             /**
@@ -56,19 +61,25 @@ public:
             if (min_epoch != UINT64_MAX) {
                 garbage_collection::set_gc_epoch(min_epoch - 1);
             } else {
+                YK_VPA(YK_LOAD, YK_C_EPOCH, epoch_management::verif_epoch_addr(), 8);
                 garbage_collection::set_gc_epoch(epoch_management::get_epoch() -
                                                  1);
             }
+            YK_VP(YK_LOAD, YK_C_STOP, &kEpochThreadEnd);
             if (kEpochThreadEnd.load(std::memory_order_acquire)) { break; }
         }
+        YK_THREAD(YK_T_END, YK_R_EPOCH);
     }
 
     static void gc_thread() {
+        YK_THREAD(YK_T_BEGIN, YK_R_GC);
         for (;;) {
             sleepMs(YAKUSHIMA_EPOCH_TIME);
             thread_info_table::gc();
+            YK_VP(YK_LOAD, YK_C_STOP, &kGCThreadEnd);
             if (kGCThreadEnd.load(std::memory_order_acquire)) { break; }
         }
+        YK_THREAD(YK_T_END, YK_R_GC);
     }
 
     static void invoke_epoch_thread() {
@@ -82,10 +93,12 @@ public:
     static void join_gc_thread() { kGCThread.join(); }
 
     static void set_epoch_thread_end() {
+        YK_VP(YK_STORE, YK_C_STOP, &kEpochThreadEnd);
         kEpochThreadEnd.store(true, std::memory_order_release);
     }
 
     static void set_gc_thread_end() {
+        YK_VP(YK_STORE, YK_C_STOP, &kGCThreadEnd);
         kGCThreadEnd.store(true, std::memory_order_release);
     }
 
